@@ -32,6 +32,12 @@ def run(ctx):
 
     check_arm_purity(ctx, "E2-A", P, with_mappers(P, fns))
     check_dispatching(ctx, "E2-A", P, fns)
+    # completeness: "the holder of a valid signature can always complete the protocol" for EVERY message - commitment,
+    # proof and verification decide through the hash of the message only; no branch on the way reads the message itself
+    # (its length, its bytes), so no message is refused for what it looks like
+    from . import flow as F_mb
+
+    F_mb.check_message_blind_control(ctx, "E6.msg-blind", P, ["ProofCommitment<C>::generate", "ProofOfKnowledge<C>::verify", "ProofOfKnowledgeTimestamp<C>::generate", "ProofOfKnowledgeTimestamp<C>::verify"], floor=4)
     from . import spec as SP
     from . import constructions as K_
 
